@@ -16,8 +16,8 @@ func init() { Registry["C16"] = c16 }
 func c16Alphabet() *term.Alphabet {
 	return &term.Alphabet{
 		Leaves: map[term.Ty][]*term.Term{
-			B: {term.Var("b", B)},
-			I: {term.Var("n", I)},
+			B: {term.Var("b", B), term.Const(true)},
+			I: {term.Var("n", I), term.Const(1)},
 		},
 		Ops: []term.OpSig{
 			sig("and", B, B, B), sig("and", B, B, B, B), sig("or", B, B, B), sig("or", B, B, B, B),
